@@ -46,7 +46,11 @@ STRINGS = STRINGS_CORE + [
     "16#-7F#", "-16#7F#", "3#12#", "10#9#", "1_0", "0x10", "1e", "e5", ".e1", "1.e", "+.", "2001-366", "2000-366",
 ] + [long_string(n) for n in (35, 39, 40, 41, 45, 70, 78, 79, 80, 81, 90, 160)] + [
     "x" * 40, "x" * 41, "y" * 85, ("word " * 30).strip(), "a" * 30 + " " + "b" * 60,
-]
+] + [
+    # every control character and every character Python (but not the grammars) counts as white space,
+    # inside a string and at its edges
+    "a" + chr(c) + "b" for c in list(range(0, 32)) + [0x7f, 0x85, 0xa0, 0x1680, 0x2028, 0x3000] if chr(c) not in "\t\n\f\x00\x01\x85\xa0"
+] + ["\x1erecord", "record\x1c", "\x00a", "a\x00", "\x7fa", "\x1f", "\x0b"]
 
 NUMBERS = [0, 1, -1, 7, 255, -255, 2 ** 63, -(2 ** 64), 0.0, -0.0, 1.5, -2.25, 1e-7, 1e16, 1e300, 0.1,
            123456.789, 1e22, 5e-324, True, False, None,
